@@ -657,6 +657,10 @@ class Evaluator:
             return ("casfail", x)
         if tag(x) == "call" and x[1].endswith("Try::branch") and vn == "Continue":
             return self._payload(x[2][0], "Ok" if True else "Some", i)
+        if tag(x) == "filter" and vn == "Some":
+            return self._payload(x[1], vn, i)
+        if tag(x) == "variant" and x[2] == vn and isinstance(i, int) and i < len(x[3]):
+            return x[3][i]
         if tag(x) == "call" and x[1].endswith("checked_sub") and vn == "Some" and i == 0:
             return sub(x[2][0], x[2][1])
         if tag(x) == "call" and x[1].endswith("checked_add") and vn == "Some" and i == 0:
@@ -895,7 +899,16 @@ class Evaluator:
         base = op.replace("WithOverflow", "").replace("Unchecked", "")
         checked = op.endswith("WithOverflow")
         if base in ("Add", "Sub", "Mul"):
-            self._log(frame, bi, si, kind="arith", op=base, a=a, b=b, checked=checked, unchecked=op.endswith("Unchecked"), mac=st.get("mac"), line=st.get("line"))
+            ty = None
+            try:
+                pl = st.get("place") or {}
+                if not pl.get("proj"):
+                    ty = frame.body.locals[pl["l"]]["ty"]
+                    m = re.match(r"^\((\w+), bool\)$", ty)
+                    ty = m.group(1) if m else ty
+            except (KeyError, IndexError, TypeError):
+                ty = None
+            self._log(frame, bi, si, kind="arith", op=base, a=a, b=b, checked=checked, unchecked=op.endswith("Unchecked"), ty=ty, mac=st.get("mac"), line=st.get("line"))
         num = _numeric(a) and _numeric(b)
         r = None
         if base == "Add" and num:
@@ -1253,6 +1266,20 @@ class Evaluator:
             if tag(x) == "call" and x[1].endswith("checked_sub"):
                 return ("satsub", x[2][0], x[2][1])
             return ("call", c, tuple(args))
+        if re.search(r"Option::<.*>::filter$", c) and len(args) == 2:
+            # opt.filter(p): Some(x) iff opt is Some(x) and p(&x); represented as ("filter", opt, p(&x)) - its discriminant carries both facts
+            recv, fval = args[0], self._deref_val(args[1])
+            if tag(recv) == "variant" and recv[2] == "None":
+                return recv
+            cb = self.facts.body(fval[1]) if tag(fval) == "closure" else None
+            if cb is not None and self._should_inline(cb, cb.path):
+                x = recv[3][0] if tag(recv) == "variant" and recv[2] == "Some" else self._payload(recv, "Some", 0)
+                cself = ("ref", ("tmp", fval)) if cb.locals[1]["ty"].startswith("&") else fval
+                entry2 = self._log(frame, bi, None, kind="closure-call", closure=fval, on="Some", recv=recv)
+                pv = self._inline(frame, bi, cb, [cself, ("ref", ("tmp", x))], entry2, guard=("variant-is", recv, "Some"))
+                return ("filter", recv, pv)
+            self._invalidate()
+            return ("call", c, tuple(args))
         m = re.search(r"(Result|Option)::<.*>::(map|and_then|map_err|inspect|inspect_err|ok_or_else|unwrap_or_else|or_else)$", c)
         if m and len(args) == 2:
             return self._combinator(frame, bi, m.group(1), m.group(2), args[0], args[1], site, entry)
@@ -1433,6 +1460,11 @@ class Evaluator:
     def guards(self, res, bb, body=None, _depth=0):
         """Conditions known to hold on entry of block bb of res.body: list of (cond_term, ('eq',v)|('ne',[v..]))."""
         body = body or res.body
+        cache = res.__dict__.setdefault("_gcache", {})
+        ck = (id(body), bb)
+        if ck in cache:
+            return list(cache[ck])
+        cache[ck] = []      # cycle guard: a block met again while its own guards are being computed contributes nothing (an under-approximation)
         out = []
         for x, cond in res.conds.items():
             t = body.blocks[x]["term"]
@@ -1463,6 +1495,14 @@ class Evaluator:
         if _depth < 3:
             for cond, rel in list(out):
                 out.extend(self._flag_phi_guards(res, body, cond, rel, _depth))
+        # a join that is not a loop head: what holds on every incoming edge holds in the block (`match k { A => { if c { return } } B => { if c { return } } }; use`)
+        preds = [p for p in body.pred[bb] if p in body.reachable]
+        if len(preds) >= 2 and not any((p, bb) in set(body.back_edges()) for p in preds):
+            sets = [set(self.guards_edge(res, p, bb, body, _depth)) for p in preds]
+            have = set(out)
+            for g in sorted(set.intersection(*sets) - have, key=repr):
+                out.append(g)
+        cache[ck] = list(out)
         return out
 
     def _flag_phi_guards(self, res, body, cond, rel, depth):
@@ -1592,6 +1632,9 @@ def implied_facts(guards):
         elif t == "discr":
             facts.add(("discr", cond[1], rel))
             x = cond[1]
+            if tag(x) == "filter" and rel in (("eq", 1), ("ne", (0,))):
+                # Some(..) came out of the filter: the receiver was Some and the predicate held
+                facts |= implied_facts([(("discr", x[1]), ("eq", 1)), (x[2], ("eq", 1))])
             if tag(x) == "call" and x[1].endswith("checked_sub") and rel[0] == "eq":
                 facts.add(("cmp", "Le", x[2][1], x[2][0]) if rel[1] == 1 else ("cmp", "Lt", x[2][0], x[2][1]))
         elif t == "is" and truth is not None:
